@@ -117,6 +117,8 @@ def _case(rng, kind, steps, **over):
         # sub-environments that hand out non-C-contiguous arrays (transposed / Fortran-ordered frames): same logical
         # values, another memory order
         "layout": "fortran" if rng.random() < 0.25 else "c",
+        # sub-environments with a random stream of their own that reset(seed=...) seeds (rewards depend on a per-episode draw)
+        "rng_salt": bool(rng.random() < 0.4),
         "steps": int(steps),
         "seed": int(rng.integers(1 << 30)),
     }
@@ -211,6 +213,7 @@ def _env_cfg(case, sleep):
         "shuffle_keys": bool(case.get("shuffle_keys")),
         "hetero": bool(case.get("hetero")),
         "layout": case.get("layout", "c"),
+        "rng_salt": bool(case.get("rng_salt")),
         "sleep": bool(sleep),
     }
 
